@@ -7,9 +7,9 @@ import (
 
 func init() {
 	checks["C15"] = func(run *report.Run) error {
-		run.Rule = "sequences of 1–12 calls of Write, WriteHeader, WriteErrorString, WriteError, WriteServiceError, WriteHeaderAndEntity, WriteEntity, WriteAsJson/Xml, WriteJson, WriteHeaderAndJson/Xml (plus PrettyPrint and SetRequestAccepts) on a real restful.Response: created directly, or by a container for a route function with a trailing filter reading StatusCode()/ContentLength(); plain, gzip or deflate CompressingResponseWriter underneath; values nil / string / struct / slice / map / typed nil / ServiceError / unmarshalable (channel, struct ending in a channel), payloads 0–5000 bytes; bottom writer failing from its k-th Write (partial count, permanent or transient) in 55 % of the cases; 80 % of the sequences obey the status discipline by construction, 20 % are free; a case is non-trivial when the underlying writer received at least one call; distinct = distinct (settings, calls, observations) lines"
+		run.Rule = "sequences of 1–12 calls of Write, WriteHeader, WriteErrorString, WriteError, WriteServiceError, WriteHeaderAndEntity, WriteEntity, WriteAsJson/Xml, WriteJson, WriteHeaderAndJson/Xml (plus PrettyPrint and SetRequestAccepts) on a real restful.Response: created directly, or by a container for a route function with a trailing filter reading StatusCode()/ContentLength(); plain, gzip or deflate CompressingResponseWriter underneath; values nil / string / struct / slice / map / typed nil / ServiceError / unmarshalable (channel, struct ending in a channel), payloads 0–5000 bytes; bottom writer failing from its k-th Write (partial count, permanent or transient; a fresh error value per failing call) in 55 % of the cases; the recorder beneath the Response names every error value its Write hands up (by identity) and every call's returned error is classified against them (nil / that value / another), so that Spec.c15Holds checks that the failing call returns THE error the underlying writer returned; 80 % of the sequences obey the status discipline by construction, 20 % are free; a case is non-trivial when the underlying writer received at least one call; distinct = distinct (settings, calls, observations) lines"
 		run.Trusted = []string{
-			"encoding/json and encoding/xml: the sizes and number of Write calls of MarshalIndent / Encoder.Encode are measured by a shadow run on a recording writer and handed to the model as data",
+			"encoding/json and encoding/xml: the sizes and number of Write calls of MarshalIndent / Encoder.Encode are measured by a shadow run on a recording writer and handed to the model as data; for a value that does not marshal, which error xml.Encoder.Encode returns when its i-th Write fails (the writer's or its own) is measured by shadow runs on a writer failing from that call",
 			"reference semantics of the underlying writer's status: first WriteHeader wins, first Write fixes 200 (net/http, httptest.ResponseRecorder)",
 			"compress/gzip, compress/zlib accept every byte offered while the writer beneath them does not fail (cross-checked on every such case by decoding what reached the bottom writer)",
 		}
@@ -18,6 +18,7 @@ func init() {
 			"all data goes through the Response's own Write*/WriteHeader methods (not the deprecated InternalServerError, not Flush/Hijack, not the embedded ResponseWriter directly)",
 			"DefaultResponseMimeType unset, default entity accessors for JSON and XML, MarshalIndent/NewEncoder package variables untouched",
 			"the error clause is claimed without a content coding in between only",
+			"the identity half of the error clause (the failing call returns THE error value the writer returned) is claimed for calls whose value marshals (Spec.ObsCall.ownErr = false): a value on which the marshaller reports an error of its own gives the call two errors to choose from (encoding/xml may return its own after a failed flush); such cases are counted under out-of-quantifier in the distribution, still compared with the model, and still required to return a non-nil error",
 		}
 		n := 5000
 		if run.Tier == "thorough" {
